@@ -266,12 +266,25 @@ type c06Entry struct {
 type c06Model struct {
 	M     map[int64]c06Entry // key -> entry the map must hold
 	P     map[int64]bool     // keys the capacity accounting must charge
+	Cost  map[int64]int64    // and what it must charge for them
+	// Outside is set when a new item did not fit in the remaining capacity: the admission is
+	// then the eviction policy's business (C09), outside this property's antecedent
+	Outside bool
 	byVal map[int64]c06Entry // every value ever passed to Set, with the expiration fixed at call time
 	keyOf map[int64]int64
 }
 
 func c06Replay(evs []vsched.Event) (*c06Model, []Viol) {
-	m := &c06Model{M: map[int64]c06Entry{}, P: map[int64]bool{}, byVal: map[int64]c06Entry{}, keyOf: map[int64]int64{}}
+	m := &c06Model{M: map[int64]c06Entry{}, P: map[int64]bool{}, Cost: map[int64]int64{}, byVal: map[int64]c06Entry{}, keyOf: map[int64]int64{}}
+	maxCost := int64(1 << 60)
+	for _, e := range evs {
+		if e.Kind == evPre {
+			// room + used at the first logged call = MaxCost (nothing is accounted yet)
+			maxCost = e.C
+			break
+		}
+	}
+	var lastApplied *vsched.Event
 	var out []Viol
 	visible := func(k, now int64) (c06Entry, bool) {
 		e, ok := m.M[k]
@@ -299,17 +312,41 @@ func c06Replay(evs []vsched.Event) (*c06Model, []Viol) {
 		case evClearRet:
 			m.M, m.P = map[int64]c06Entry{}, map[int64]bool{}
 		case evApplied:
-			k := e.A // int keys hash to themselves
-			switch e.C {
-			case 0: // new item
-				if !m.P[k] {
-					m.P[k] = true
-					m.M[k] = m.byVal[e.B]
-				}
-			case 1: // tombstone
-				delete(m.P, k)
-				delete(m.M, k)
+			ev := e
+			lastApplied = &ev
+			if e.C == 1 { // tombstone
+				delete(m.P, e.A)
+				delete(m.Cost, e.A)
+				delete(m.M, e.A)
 			}
+		case evItemCost:
+			if lastApplied == nil || lastApplied.A != e.A {
+				continue
+			}
+			k, cost := e.A, e.B // int keys hash to themselves
+			switch lastApplied.C {
+			case 0: // new item
+				if m.P[k] {
+					m.Cost[k] = cost // already accounted: the item is turned away, its cost is adopted
+				} else {
+					var sum int64
+					for _, c := range m.Cost {
+						sum += c
+					}
+					if cost > maxCost || sum+cost > maxCost {
+						m.Outside = true
+						return m, out
+					}
+					m.P[k] = true
+					m.Cost[k] = cost
+					m.M[k] = m.byVal[lastApplied.B]
+				}
+			case 2: // overwrite of a resident key: only the cost changes
+				if m.P[k] {
+					m.Cost[k] = cost
+				}
+			}
+			lastApplied = nil
 		case evGetRet:
 			ent, vis := visible(e.A, e.T)
 			switch {
@@ -433,7 +470,22 @@ func c06Oracle(r *SeqRun) []Viol {
 			out = append(out, Viol{Key: "C06/accounting-extra-key", What: fmt.Sprintf("key %d is accounted but the reference does not account it", k)})
 		}
 	}
+	var sum int64
+	for _, c := range r.Post.Costs {
+		if want, ok := m.Cost[int64(c.Key)]; ok && want != c.Cost {
+			out = append(out, Viol{Key: "C06/accounting-charges-other-cost", What: fmt.Sprintf("key %d is charged %d but the reference charges %d", c.Key, c.Cost, want)})
+		}
+		sum += c.Cost
+	}
+	if sum != r.Post.Used {
+		out = append(out, Viol{Key: "C06/remaining-capacity-drifted", What: fmt.Sprintf("the accounting's running total is %d but the per-key costs sum to %d: later items that fit would be treated as not fitting", r.Post.Used, sum)})
+	}
 	return out
+}
+
+func c06Outside(r *SeqRun) bool {
+	m, _ := c06Replay(r.Events)
+	return m.Outside
 }
 
 // The reference model is a function of the implementation state that is already in the key
@@ -458,10 +510,24 @@ func c06Seq(tier string) []SeqJob {
 			Alphabet: func(r *SeqRun) []Op { return alpha },
 			Oracle:   c06Oracle,
 			Abstract: c06Abstract,
+			Outside:  c06Outside,
 		}
 		out = append(out, SeqJob{Name: name, Spec: spec, Seconds: secs})
 	}
+	// costs 1 and 2 with a capacity that not every combination fits: histories in which a new
+	// item does not fit leave the antecedent and are not followed
+	mkCosts := func(name string, depth int, secs float64) {
+		var alpha []Op
+		for _, k := range []int{1, 2} {
+			alpha = append(alpha, Op{K: "set", Key: k, Cost: 1}, Op{K: "set", Key: k, Cost: 2}, Op{K: "get", Key: k})
+		}
+		alpha = append(alpha, Op{K: "del", Key: 1}, Op{K: "drain"})
+		spec := &SeqSpec{Cfg: Cfg{NumCounters: 16, MaxCost: 3, BufferItems: 2, SetBuf: 3}, MaxDepth: depth,
+			Alphabet: func(r *SeqRun) []Op { return alpha }, Oracle: c06Oracle, Abstract: c06Abstract, Outside: c06Outside}
+		out = append(out, SeqJob{Name: name, Spec: spec, Seconds: secs})
+	}
 	if tier == "quick" {
+		mkCosts("seq/2keys/costs1,2/max3/depth6", 6, 40)
 		mk("seq/1key/setbuf2/depth8", []int{1}, 2, 8, 40)
 		mk("seq/2keys/setbuf2/depth6", []int{1, 257}, 2, 6, 40)
 		mk("seq/2keys/setbuf8/depth6", []int{1, 257}, 8, 6, 40)
@@ -473,6 +539,7 @@ func c06Seq(tier string) []SeqJob {
 		mk("seq/2keys/setbuf8/depth8", []int{1, 257}, 8, 8, 560)
 		mk("seq/3keys/setbuf3/depth7", []int{1, 257, 2}, 3, 7, 560)
 		mk("seq/3keys/setbuf8/depth7", []int{1, 257, 2}, 8, 7, 560)
+		mkCosts("seq/2keys/costs1,2/max3/depth9", 9, 560)
 	}
 	return out
 }
